@@ -62,7 +62,7 @@ func TestVerifC14(t *testing.T) {
 		verifierOutcomes := []string{"ok", "invalid", "oauth", "other", "nilinfo"}
 		required := [][]string{nil, {"a"}, {"a", "b"}}
 		granted := [][]string{nil, {"a"}, {"b"}, {"a", "b"}, {"b", "c", "a"}}
-		skews := []time.Duration{0, 30 * time.Second}
+		skews := []time.Duration{0, time.Nanosecond, 30 * time.Second}
 		type expCase struct {
 			name string
 			at   func(skew time.Duration) time.Time
@@ -75,6 +75,8 @@ func TestVerifC14(t *testing.T) {
 			{"now", func(time.Duration) time.Time { return now }},
 			{"now+1h", func(time.Duration) time.Time { return now.Add(time.Hour) }},
 			{"long-ago", func(time.Duration) time.Time { return now.Add(-24 * time.Hour) }},
+			{"never-expires-9999", func(time.Duration) time.Time { return time.Date(9999, 12, 31, 23, 59, 59, 0, time.UTC) }},
+			{"year-1", func(time.Duration) time.Time { return time.Date(1, 1, 1, 0, 0, 1, 0, time.UTC) }},
 		}
 		for _, h := range headers {
 			for _, vo := range verifierOutcomes {
